@@ -112,6 +112,25 @@ func loadNext() {
 	}
 }
 
+// Coverage: C(id) is the first statement of every instrumented function. While CovOn is set, it records which managed
+// threads executed the function (bit i = thread i; bit 7 = outside Run).
+var (
+	CovOn bool
+	Cov   = make([]uint8, 1<<14)
+)
+
+// C records that function id was entered.
+func C(id int) {
+	if !CovOn {
+		return
+	}
+	if active && cur != nil {
+		Cov[id] |= 1 << uint(cur.id&3)
+	} else {
+		Cov[id] |= 1 << 7
+	}
+}
+
 // P is called before every instrumented statement.
 func P() {
 	if !active || funcGran {
